@@ -1067,4 +1067,51 @@ theorem case_insensitive_pair_accepts_other_account :
     cstrcmpEq ([67, 104, 108, 111, 101, 0].map fun c => if 65 ≤ c ∧ c ≤ 90 then c + 32 else c)
       ([99, 104, 108, 111, 101, 0].map fun c => if 65 ≤ c ∧ c ≤ 90 then c + 32 else c) = true := by decide
 
+/-! #### an acknowledged in-place field modify survives a later whole-record store of an earlier copy -/
+
+/-- regenerated: ptt.passwdSyncUpdate, the funnel of every whole-record store, re-syncs Money from the
+shared-memory cache before the write. -/
+theorem store_funnel_resyncs_money : Gen.RecFile.storeFunnelResyncsMoney = true := by decide
+
+theorem field_setField (r : List Nat) (off len : Nat) (bs : List Nat) (h : off ≤ r.length) (hb : bs.length = len) :
+    field (setField r off len bs) off len = bs := by
+  unfold field setField
+  rw [List.append_assoc, List.drop_append_of_le_length (by simp [List.length_take]; omega)]
+  have : (List.take off r).length = off := by simp [List.length_take]; omega
+  rw [List.drop_of_length_le (by omega), List.nil_append, copyInto_of_le _ _ (by omega), hb, Nat.sub_self]
+  simp [hb]
+
+/-- history "load the record of a valid `uid`; set its Money in place (acknowledged); store the EARLIER copy
+with a new level": the record on disk afterwards carries the acknowledged money, not the stale one. -/
+theorem store_keeps_acknowledged_money (s : FS) (k : Nat) (money : Int) (perm : Nat) (r : List Nat)
+    (hk : (k : Int) + 1 ≤ (maxUsers : Int))
+    (hq : passwdQuery s ((k : Int) + 1) 0 Gen.RecFile.packedUserecRaw = .recs .ok [(((k : Int) + 1).toNat, r)])
+    (hr : r.length = pwSz) :
+    field (record (storeEarlierCopy s ((k : Int) + 1) money perm).bytes pwSz k)
+      Gen.RecFile.pwOffMoney Gen.RecFile.pwLenMoney = le32 (money % 4294967296).toNat := by
+  have hv : uidValid ((k : Int) + 1) = true := (uidValid_iff _).2 ⟨by omega, hk⟩
+  have hp : s.present = true := by
+    cases hpp : s.present with
+    | true => rfl
+    | false => simp [passwdQuery, hv, hpp] at hq
+  unfold storeEarlierCopy
+  rw [hq]
+  simp only [store_funnel_resyncs_money, if_true]
+  have hl1 : (setField r Gen.RecFile.pwOffUserLevel Gen.RecFile.pwLenUserLevel (le32 perm)).length = pwSz := by
+    rw [length_setField _ _ _ _ (by rw [hr]; decide)]; exact hr
+  have hl2 : (setField (setField r Gen.RecFile.pwOffUserLevel Gen.RecFile.pwLenUserLevel (le32 perm))
+      Gen.RecFile.pwOffMoney Gen.RecFile.pwLenMoney (le32 (money % 4294967296).toNat)).length = pwSz := by
+    rw [length_setField _ _ _ _ (by rw [hl1]; decide)]; exact hl1
+  have hpres : (moneyUpdate s ((k : Int) + 1) money).1.present = true := by
+    simp [moneyUpdate, passwdUpdate, passwdUpdateG, hv, hp]; split <;> simp [hp]
+  unfold passwdUpdate passwdUpdateG
+  simp only [hv, hpres, Bool.not_true, Bool.false_eq_true, if_false]
+  have ho : (pwSz : Int) * ((k : Int) + 1 - 1) + ((0 : Nat) : Int) = ((k * pwSz : Nat) : Int) := by
+    have : (k : Int) + 1 - 1 = (k : Int) := by omega
+    rw [this]; push_cast; rw [Int.mul_comm]; omega
+  rw [ho, if_neg (by omega)]
+  simp only [Int.toNat_natCast]
+  rw [record_writeAt_same _ _ _ _ hl2]
+  exact field_setField _ _ _ _ (by rw [hl1]; decide) rfl
+
 end PttVerif.C05.Props
